@@ -34,7 +34,12 @@ pub fn analyze_order(egraph: &EGraph, enode: &Expr) -> OrderKey {
         Order([keys, _]) | TopN([_, _, keys, _]) => x(keys).clone(),
         // plans that preserve order
         Proj([_, c]) | Filter([_, c]) | Window([_, c]) | Limit([_, _, c]) => x(c).clone(),
-        MergeJoin([_, _, _, _, _, r]) => x(r).clone(),
+        // Joins emit rows in the order of their right input, but a left or full outer join
+        // adds rows whose right side is NULL: the result is then not ordered by the right keys.
+        MergeJoin([t, _, _, _, _, r]) => match egraph[*t].nodes[0] {
+            Inner | RightOuter => x(r).clone(),
+            _ => Box::new([]),
+        },
         SortAgg([_, _, c]) => x(c).clone(),
         // unordered for other plans
         _ => Box::new([]),
